@@ -534,6 +534,7 @@ func runImplRaw(line string) string {
 			return bad
 		}
 		var m string
+		before := otp.SuiteConfigFromRaws(string(raw))
 		su, err := otp.NewRawSuite(string(raw))
 		if err != nil {
 			lastErrText = err.Error()
@@ -548,7 +549,13 @@ func runImplRaw(line string) string {
 		if otp.IsKnownSuite(string(raw)) {
 			k = "known"
 		}
-		return m + " " + k + " " + showCfg(otp.SuiteConfigFromRaws(string(raw)))
+		after := otp.SuiteConfigFromRaws(string(raw))
+		hd := ""
+		if before != after {
+			// the registry answer changed because of an unrelated call: results depend on the call history (C11)
+			hd = " HISTORY-DEPENDENT"
+		}
+		return m + " " + k + " " + showCfg(before) + hd
 	case "newsuite":
 		if len(f) != 2 {
 			return bad
